@@ -66,3 +66,33 @@ func VerifC14GatewayMerge() {
 	// nothing is lost without reason: a server whose hosts collide with nobody's is kept
 	vp.Assert(len(mg.MergedServers) > 0, "some-server-is-kept")
 }
+
+// C17 (determinism) through the same code: the order of the merged server ports - the order in which gateway
+// listeners are emitted - does not depend on map iteration order, also when a Service port resolves to several target
+// ports (Gateway API style selection).
+func VerifC17GatewayPortOrder() {
+	svc := &Service{Hostname: "gw.ns.svc", Attributes: ServiceAttributes{Namespace: "ns"}}
+	instances := []ServiceTarget{
+		{Service: svc, Port: ServiceInstancePort{ServicePort: &Port{Name: "https", Port: 443, Protocol: "HTTPS"}, TargetPort: 8443}},
+		{Service: svc, Port: ServiceInstancePort{ServicePort: &Port{Name: "https", Port: 443, Protocol: "HTTPS"}, TargetPort: 9443}},
+	}
+	legacy := vp.Choice("legacySelector", 2) == 1
+	mk := func() *MergedGateway {
+		srv := &networking.Server{Port: &networking.Port{Number: 443, Name: "tls", Protocol: "HTTPS"}, Hosts: []string{"a.com"},
+			Tls: &networking.ServerTLSSettings{Mode: networking.ServerTLSSettings_SIMPLE, ServerCertificate: "/c", PrivateKey: "/k"}}
+		gws := []gatewayWithInstances{{
+			gateway:               config.Config{Meta: config.Meta{GroupVersionKind: gvk.Gateway, Name: "gw", Namespace: "ns", CreationTimestamp: time.Unix(2000, 0)}, Spec: &networking.Gateway{Servers: []*networking.Server{srv}}},
+			legacyGatewaySelector: legacy, instances: instances,
+		}}
+		return mergeGateways(gws, &Proxy{Type: Router, ConfigNamespace: "ns", Metadata: &NodeMetadata{Namespace: "ns"}, ServiceTargets: instances}, NewPushContext())
+	}
+	vp.PermuteMaps(true)
+	a, b := mk(), mk()
+	vp.Reach("merged-twice")
+	vp.Assert(len(a.ServerPorts) == len(b.ServerPorts), "server-port-order-is-independent-of-map-order")
+	for i := range a.ServerPorts {
+		if i < len(b.ServerPorts) {
+			vp.Assert(a.ServerPorts[i].Number == b.ServerPorts[i].Number, "server-port-order-is-independent-of-map-order")
+		}
+	}
+}
